@@ -30,6 +30,13 @@ CLAIMED = {
  "C06": ("fault_enumeration", "Engine H + Engine F", "simulated raw file device under the real io stack (ENOSPC/EIO at every byte offset, failing open/close, short raw reads/writes, torn files, overwrite of a longer file), driven from seeded histories; acked-save-implies-equal-load, saved-object-untouched and post-load lock-step oracles",
          "Histories drive objects of all four containers into states with removal history; d_roundtrip steps save and load through the simulated device in both formats (buffer sizes 1/7/64/8192, short raw reads/writes, overwrite of a longer file) and compare the full public observation (type, nodes incl. isolated, hyperedges with direction/time/layer, weightedness, weights, all metadata modulo the reserved keys); the loaded twin is then driven in lock step with its original.  d_faults steps enumerate, for the saved object, every write-fault byte offset for ENOSPC and EIO, a failing close, three failing opens, and every read-fault offset: a save that returns normally must load equal, the saved object must be unchanged even when the save fails, a load that returns under a read fault must equal the saved observation, and a retry on a healthy device must round-trip.  .hgr and HIF documents generated from a document model are read through the same device under every read-fault offset.",
          "Fault offsets stride 1 up to 600 (quick) / 4096 (thorough) bytes, stride 7 beyond; loading a torn file is a probe, not a verdict; real disks are replaced by the simulated raw device (no privileges for dm-flakey)."),
+
+ "C13": ("exploration", "Engine R", "owned randomness: every draw of the MCMC chains goes through a seeded facade that also injects legal-but-rare outcomes (i == j, repeated pair, forced coincidences); per-step invariants by prefix replay over n_steps = 0..K",
+         "configuration_model (label edge/stub, detailed True/False, optional size/order) is executed for every prefix n_steps = 0..K of one seeded draw stream and the statement's invariants are checked on each prefix: no (node, size) degree above the input's, exact preservation and equal size multiset when the hyperedge count is kept, hyperedges of other sizes intact; degrees are computed from get_edges() and through degree(node, size=k).  directed_configuration_model: in/out degrees never above the input's, preserved with the (|source|,|target|) multiset when the count is kept, argument untouched.",
+         "label='vertex' not exercised; inputs 3-8 nodes / 2-10 hyperedges; adversarial draws only with non-zero real probability."),
+ "C14": ("exploration", "Engine R", "owned randomness for the generators: seeded facade with forced repeated samples, perturbation of the global PRNG state between same-seed calls ('somebody else drew'), structural contracts checked on every output",
+         "random_hypergraph / random_uniform_hypergraph (node set, sizes, distinct nodes, at most the requested count and at least one, same output for the same seed with the global streams perturbed and another generator run in between), scale_free_hypergraph (exact count per size, also with default arguments), HOADmodel (size = order+1, nodes < N, 0 <= t < time), add_random_edge(s) (only new hyperedges of the requested size over existing nodes; inplace=False leaves the argument untouched), random_shuffle(_all_orders) (node set, other sizes, sizes of rewired hyperedges, replacement nodes from the rewired hyperedges only, p = 0 changes nothing, inplace=False leaves the argument untouched).",
+         "counts <= half of the possible hyperedges per size; shuffle inputs unweighted and metadata-free."),
 }
 NA = {
  "C08": "pure function of the hypergraph value (degrees, components): no history, I/O, random draw, clock or interleaving for a simulator to own (DESIGN.md 8)",
